@@ -10,10 +10,10 @@ def run(pid, tier, seed, replay=None):
     cases = 400 if tier == "quick" else 40000
     binary = vlib.build_harness("router", "plain")
     res = vlib.run_resumable(binary, ["--seed", str(seed), "--cases", str(cases), "--probes", "8" if tier == "quick" else "12"], nsh,
-                             timeout=900 if tier == "quick" else 7200, work=work)
+                             timeout=300 if tier == "quick" else 7200, work=work)
     counters, distinct, samples, stats = vlib.collect_runs(v, res)
     abin = vlib.build_harness("router", "asan")
-    res2 = vlib.run_resumable(abin, ["--seed", str(seed + 5), "--cases", str(max(20, cases // 10))], nsh, timeout=900 if tier == "quick" else 7200,
+    res2 = vlib.run_resumable(abin, ["--seed", str(seed + 5), "--cases", str(max(20, cases // 10))], nsh, timeout=300 if tier == "quick" else 7200,
                               work=work, env=vlib.SAN_ENV_EXPLORE, tag="a")
     c2, d2, s2, st2 = vlib.collect_runs(v, res2)
     distinct |= d2
